@@ -59,6 +59,13 @@ Fixpoint path_eqb (a b : path) : bool :=
   | _, _ => false
   end.
 
+(** List elements with their destinations: element k of [l] goes to [p ++ [PIdx (i + k)]]. *)
+Fixpoint index_items {A} (p : path) (l : list A) (i : nat) : list (A * path) :=
+  match l with
+  | [] => []
+  | x :: t => (x, (p ++ [PIdx i])%list) :: index_items p t (S i)
+  end.
+
 (** A recorded failure: nestPathErrorMulti leaves sanitized errors alone, prefixes the others. *)
 Record perr : Type := mk_perr { pe_err : err; pe_path : path }.
 
